@@ -64,6 +64,33 @@ CLAIMED.update({
   design="5/C20"),
 })
 
+CLAIMED.update({
+ "C01": dict(
+  text="Decided at the ast+FileSet interface under contracts P (parser) and PC (printer). Gap lemma G: for 10 configurations (block statements, call arguments, file declarations incl. package clause, case clauses, struct fields, import specs, if/else with init, composite literals with qualified types and key-value elements, generic instantiations, generic type declarations) the real addNodeFragments gives the token/decoration fragments of a restored ast; into every gap between two tokens (forked) a forked sequence of <= 2 items that gofmt-formatted source can contain (block comments, line comments with their line break, line breaks, blank lines; bodies opaque; neighbouring comments possibly identical) is inserted where fragment()'s stable sort puts them, with every line's indent a free symbolic column; then the real link(), decorateNode and restoreNode run. Solver obligations over all indents/lengths/cursor states: no panic, every comment rendered exactly once, in source order, between the same two tokens, and the line breaks between consecutive positioned items (capped at one blank line) equal the original ones. Together with C12 (exact agreement of fragmenter and restorer token arithmetic for all 53 node types, symbolic FileSet base) and C03's field round trip this is the decorate->restore identity on canonical layouts.",
+  note="Outside: go/parser and go/printer themselves (P, PC), fragment()'s byte scan (its output shape is re-created by the harness: where items sort, one fragment per line break, Empty for blank lines), the entry-point wrappers (Parse/Print/ParseDir are thin and covered only through DecorateFile/RestoreFile in C12/C15/C20), more than 2 items per gap (quick), two decorated gaps only in thorough.",
+  design="5/C01"),
+ "C14": dict(
+  text="(1) List-edit semantics, differential: the real dstutil.Apply and the real golang.org/x/tools astutil.Apply (the version /repo pins), both executed symbolically with reflect implemented over the engine heap, run the same script on mirrored trees (statement list / argument list of 1-3 (4) elements; at a forked element and phase a forked sequence of <= 2 operations from Replace/Delete/InsertBefore/InsertAfter and a forked return value): callback logs (phase, node, Name, Index), panics, and final lists must be equal; Parent().Name[Index]==Node() at every callback before the element is edited; for single operations no element is visited twice and inserted nodes never. Root replacement + abort returns what astutil returns. (2) Per node type: Apply's pre order equals dst.Walk order, Name()/Index() locate the node in Parent() (field lookup by name), post is called once per node with the root last, pre=false skips exactly that subtree and its post, post=false stops and still returns the tree.",
+  note="Mostly shape reasoning: obligations are decided by the engine's concrete heap and term simplifier; the solver's share is small. Bounds: lists <= 4, <= 2 ops on one element, one scripted element. Package.Files map special case not covered.",
+  design="5/C14"),
+ "C16": dict(
+  text="(a) Data races: two thread bodies (ResolveIdent on a shared goast resolver created with New() or WithResolver(read-only map), 1-2 calls each on different files; RestoreFile with own restorers sharing a guess/simple map) are executed from the real SSA in both orders with every load/store/map access to memory reachable from the shared roots and every mutex Lock/Unlock recorded; one SMT query per run asks for integer clocks satisfying program order and mutual exclusion of critical sections such that two conflicting accesses are unordered by happens-before (program order + unlock->lock). unsat = race-free in every schedule of these events; sat is replayed with two goroutines under go test -race. Results equal the calls made alone. (b) Determinism: updateImports with every map iteration order forked over all permutations gives the same declarations and package names as insertion order.",
+  note="Events come from sequential executions (both orders): schedule-dependent control flow inside a thread beyond that is not explored. 2 threads, <= 2 calls each. Stdlib internals behind intrinsics (sync, maps) are assumed race-free.",
+  design="5/C16 and 2.7"),
+ "C18": dict(
+  text="(1) A positioned ast with a parser-style object graph (file scope with two objects of symbolic name/kind/data, Decl links forming the cycle object->decl->ident->object, nested scope, extra object with Decl in {nil, Scope, node} and Data in {nil, Scope, int, node}) is decorated by the real DecorateFile: identifiers share an object exactly when their counterparts do, kind/name/data kept, Decl/Data links point to the dst counterparts, scope nesting and membership preserved, maps inverse; RestoreFile with Extras rebuilds an isomorphic graph. (2) The real dst.NewPackage and the real go/ast NewPackage run on mirrored files (1-2 files, 0-1 (2) scope objects and unresolved identifiers with symbolic one-byte names, 0-1 import spec plain/aliased/dot/blank, importer nil/failing/stub): same package scope, same error list (count and messages), same unresolved remainder.",
+  note="Bounds as stated; with differing package clauses both implementations depend on map order alike (assumed equal names for 2 files).",
+  design="5/C18"),
+})
+CLAIMED["C03"]["text"] += " Part (2), conservation under arbitrary formatting: the gap lemma (see C01) with every item sequence fragment() can emit (any mix of comments, line breaks and blank lines, neighbouring comments possibly identical) and unconstrained indents: no comment lost, duplicated, reordered or moved across a token."
+CLAIMED["C03"]["note"] = "Decided at the ast interface under contracts P and PC (go/parser, go/printer, scanner normalisation such as CRLF/BOM are outside). Bounds: depth 1 children, lists <= 2; gaps: 10 configurations, <= 1 item per gap (2 in blocks; +1 in thorough)."
+CLAIMED["C08"]["text"] = "Part (1): gap lemma on qualified identifiers pkg.Name (3 contexts) with an identifier resolver that says 'qualified' and an import-managing restorer: comments/line breaks in every gap around X, '.', Sel survive decorateSelectorExpr+mergeDecorations (collapse) and restoreIdent (expansion): once, in order, between the same tokens, line structure kept. " + CLAIMED["C08"]["text"]
+CLAIMED["C08"]["note"] = "A comment directly before the '.' has no position to return to (go/ast has none for the period; gofmt itself moves it) and is only required to survive. Re-decoration of printed output (needs the parser) is not covered."
+CLAIMED["C11"]["text"] += " Plus: parser objects with Decl links (labeled statement, function, value/type spec, field, short variable declaration; with/without forward reference) with the whole-map inverse law; one Restorer restoring two files; qualified-identifier collapse (three ast nodes -> one identifier, identifier -> selector, parent/child commutation) and expansion on restore."
+CLAIMED["C11"]["note"] = "Bounds: generic instances with children one level deep, lists <= 2."
+CLAIMED["C15"]["text"] += " Gap lemma with arbitrary comment/line-break sequences (<= 2, 3 thorough) in every gap of blocks, switch/case clauses and if/else, and next to Bad nodes of symbolic extent; import spec with an empty path literal."
+CLAIMED["C20"]["text"] += " VerifC20Disk: the public SaveWithResolver on files that went through the real RestoreFile/DecorateFile pipeline (names recorded by DecorateNode, optional //line directive, unsorted import block), against an in-memory model of os.WriteFile/OpenFile/File.Write holding longer old contents: every path holds exactly gofmt's (go/format) print of its file, no other file exists."
+
 NOT_YET = "check not built yet in this round (work in progress; see DESIGN.md section 7 for the order)"
 
 def main():
@@ -100,6 +127,10 @@ def main():
     }
     json.dump(m, open('/verif/MANIFEST.json', 'w'), indent=1)
 
-NA = {}
+NA = {
+ "C02": "not built yet: needs the gap lemma with gofmt-shaped indents per list kind plus the translation-invariance lemma L1 (DESIGN.md section 5/C02); partial support exists through C01 (attachment is gap-local), C05 (spacing rule per node type) and C06 (Clone)",
+ "C09": "not built yet: the gotypes resolver needs go/types objects (types.Info.Uses) constructed inside the symbolic executor; stripVendor/goast parts are encodable and planned",
+ "C10": "not built yet: composition of decorate-with-resolver in file A and import-managed restore in file B; depends on C07 (done) and C09",
+}
 if __name__ == '__main__':
     main()
